@@ -50,6 +50,8 @@ def entropy_bytes(t):
 
 def run(ctx):
     model = ctx.model
+    from .. import roles as _roles
+    R = _roles.get(model)
     interp = model.interp
     ctx.rule("R03.unique", "INSERT INTO nameplates lies in the absent branch of a "
              "select keyed exactly (app_id, name); handlers are atomic")
@@ -77,7 +79,7 @@ def run(ctx):
         for e, _ in all_events(p):
             if e["k"] == "sql" and e["stmt"].kind == "insert" and e["stmt"].table == "nameplates":
                 ins = e
-            if e["k"] == "ret" and e["callee"] == "AppNamespace.claim_nameplate":
+            if e["k"] == "ret" and e["callee"] == R.claim_op:
                 ret = e
         if ret is None:
             continue
@@ -122,7 +124,7 @@ def run(ctx):
     for en in model.runtime_entries():
         for p in model.paths(en):
             rets = [e for e, _ in all_events(p, ("ret",))
-                    if e["callee"] == "AppNamespace.claim_nameplate"]
+                    if e["callee"] == R.claim_op]
             for e, _ in all_events(p, ("send",)):
                 if frame_type(e) != "claimed":
                     continue
